@@ -25,6 +25,20 @@ Template directives (see DESIGN.md 3.2/3.3):
   @*/
   where <where> is one of: start | end | loop K before | loop K start | loop K end | loop K after | before `text` [#n] | after `text` [#n]
 
+  /*@fnrange FILE :: IMPL-HEADER-or-"-" :: NAME          a contiguous range of top-level statements of fn NAME
+  from: `text the first statement of the range starts with`
+  to: `text the first statement AFTER the range starts with`     (exclusive)
+  as: fn new_name<G>(params) -> RetType where ..               signature of the free function the range is wrapped in
+  returns: (local_a, local_b)                                  tail expression appended after the range (locals of the range)
+  ... every other key of /*@fn (props, rules, requires, ensures, loop K, hint ..)
+  @*/
+  The statements of the range are copied verbatim (then treated exactly like a /*@fn body); everything of NAME
+  before `from` and from `to` on is NOT part of the verified text.  Either anchor missing / ambiguous = LostAnchor.
+
+  //@usespec FILE :: name1 name2 ..   (FILE relative to vx/) copies the named `spec fn` / `type` / `struct` items, with
+  their attributes, verbatim from another template or prelude file (`*` = every such item of the file): the vocabulary
+  of another unit can be talked about without re-typing it.  No `proof fn` is ever copied (no obligation is duplicated).
+
 The body text of every function is copied verbatim; only the generic rules of rules.py touch it.
 Everything the extractor cannot place is a LostAnchor (exit 2 = undecided), never a violation.
 """
@@ -344,6 +358,54 @@ def nth_occurrence(body, needle, n, what):
     raise LostAnchor('hint anchor %s `%s` #%d not found' % (what, needle, n))
 
 
+def _nows(s):
+    return re.sub(r'\s+', '', s)
+
+
+def stmt_starts(body):
+    """Offsets at which a top-level statement of `body` (a fn body without its braces, comments already stripped)
+    may start: the first code character of the body and the first one after every `;` or `}` at bracket depth 0."""
+    mask = code_mask(body)
+    out, depth, want = [], 0, True
+    for k, c in enumerate(body):
+        if want and depth == 0 and c not in ' \t\r\n':
+            if c not in ';':
+                out.append(k)
+            want = False
+        if not mask[k]:
+            continue
+        if c in OPEN:
+            depth += 1
+        elif c in CLOSE:
+            depth -= 1
+            if depth == 0 and c == '}':
+                want = True
+        elif c == ';' and depth == 0:
+            want = True
+    return out
+
+
+def cut_range(body, first, last, what):
+    """The text of the top-level statements of `body` from the one that starts with `first` up to, excluding, the one
+    that starts with `last` (both compared without white space).  Returns (text, statements_before, statements_in,
+    statements_after); a missing, ambiguous or misordered anchor is a LostAnchor."""
+    starts = stmt_starts(body)
+
+    def locate(anchor, which):
+        want = _nows(anchor)
+        if not want:
+            raise SystemExit('template error: empty fnrange anchor in ' + what)
+        hits = [p for p in starts if _nows(body[p:p + 8 * len(anchor) + 400]).startswith(want)]
+        if len(hits) != 1:
+            raise LostAnchor('fnrange %s anchor `%s` of %s: %d top-level statements start with it' % (which, anchor, what, len(hits)))
+        return hits[0]
+
+    a, b = locate(first, 'from'), locate(last, 'to')
+    if not a < b:
+        raise LostAnchor('fnrange anchors of %s are out of order (shape changed)' % what)
+    return body[a:b], sum(1 for p in starts if p < a), sum(1 for p in starts if a <= p < b), sum(1 for p in starts if p >= b)
+
+
 class Emitter:
     """Collects output lines and remembers which obligation each line belongs to."""
 
@@ -390,7 +452,8 @@ def parse_fn_directive(text):
         raise SystemExit('template error: bad @fn header: ' + head)
     d = dict(file=allparts[0], impl=' :: '.join(allparts[1:-1]), name=allparts[-1], props=None, rename=None,
              rules=[], sig=None, requires=[], ensures=[], loops={}, hints=[], ret='r', attrs=[], mode=None,
-             decreases=None, nloops=None, sigmap=[], callmap=[])
+             decreases=None, nloops=None, sigmap=[], callmap=[], range=False)
+    d['from'] = d['to'] = d['as'] = d['returns'] = None
     sec, buf, arg = None, [], None
 
     def flush():
@@ -430,7 +493,7 @@ def parse_fn_directive(text):
 
     for ln in lines[1:]:
         s = ln.strip()
-        m = re.match(r'(props|rename|rules|sig|ret|attr|mode|decreases|nloops|sigmap|callmap):\s*(.*)$', s) if not ln.startswith((' ', '\t')) else None
+        m = re.match(r'(props|rename|rules|sig|ret|attr|mode|decreases|nloops|sigmap|callmap|from|to|as|returns):\s*(.*)$', s) if not ln.startswith((' ', '\t')) else None
         if m:
             flush()
             k, v = m.group(1), m.group(2).strip()
@@ -445,6 +508,8 @@ def parse_fn_directive(text):
             elif k in ('sigmap', 'callmap'):
                 a, b = v.split('=>')
                 d[k].append((a.strip().strip('`'), b.strip().strip('`')))
+            elif k in ('from', 'to'):
+                d[k] = v.strip().strip('`')
             else:
                 d[k] = v
             continue
@@ -535,7 +600,23 @@ def build_function(repo, d, unit, em, report, vac=False):
     import rules as R
     fx = extract_fn(repo, d['file'], d['impl'], d['name'])
     body = strip_comments(fx['body'])
-    head, params, ret, where = split_sig(fx['sig'])
+    rng = None
+    if d['range']:
+        # /*@fnrange: the verified text is a contiguous range of the top-level statements of the real function,
+        # wrapped in a free function with the signature given by `as:` and the tail expression given by `returns:`
+        if not (d['from'] and d['to'] and d['as'] and d['returns']):
+            raise SystemExit('template error: @fnrange %s needs from: / to: / as: / returns:' % d['name'])
+        cut, nb, ni, na = cut_range(body, d['from'], d['to'], '%s::%s' % (d['file'], d['name']))
+        body = '\n        ' + cut.rstrip() + '\n        ' + d['returns'].strip() + '\n    '
+        head, params, ret, where = split_sig(norm_ws(d['as']))
+        mname = re.match(r'fn\s+([A-Za-z0-9_]+)', head)
+        if not mname:
+            raise SystemExit('template error: @fnrange `as:` is not a fn signature: ' + d['as'])
+        rng = dict(name=mname.group(1), statements_before=nb, statements_in=ni, statements_after=na,
+                   sha256=hashlib.sha256(cut.encode()).hexdigest())
+        rng['from'], rng['to'] = d['from'], d['to']
+    else:
+        head, params, ret, where = split_sig(fx['sig'])
     fired = {}
     ctx = dict(head=head, params=params, ret=ret, where=where)
     # always-on drops
@@ -563,9 +644,9 @@ def build_function(repo, d, unit, em, report, vac=False):
         head, params, where = head.replace(a, b), params.replace(a, b), where.replace(a, b)
         ret = ret.replace(a, b) if ret is not None else None
         fired['sigmap'] = fired.get('sigmap', 0) + 1
-    if d['rename']:
+    if d['rename'] and not rng:
         head = re.sub(r'fn\s+' + re.escape(d['name']) + r'\b', 'fn ' + d['rename'], head, count=1)
-    name = d['rename'] or d['name']
+    name = rng['name'] if rng else (d['rename'] or d['name'])
     oblig = '%s.%s' % (unit, name)
     heads = loop_heads(body)
     if d['nloops'] is not None and len(heads) != d['nloops']:
@@ -641,7 +722,7 @@ def build_function(repo, d, unit, em, report, vac=False):
     report['functions'].append(dict(
         obligation_prefix=oblig, file=d['file'], impl=d['impl'], name=d['name'], lines=list(fx['span']),
         sha256=hashlib.sha256(fx['raw'].encode()).hexdigest(), rules_fired=fired,
-        props=d['props'], obligations=obls,
+        props=d['props'], obligations=obls, range=rng,
         requires=[e for _, e in d['requires']], has_requires=bool(d['requires']),
         vac=dict(sig=sig, requires=[e for _, e in d['requires']]) if d['requires'] else None))
     return obls
@@ -685,10 +766,37 @@ def build_item(repo, text, em, report):
     return fields
 
 
+SPEC_ITEM_RX = re.compile(r'(?m)^((?:[ \t]*#\[[^\n]*\]\s*\n)*)[ \t]*(?:pub\s+)?(?:open\s+|closed\s+|uninterp\s+)?(spec\s+fn|type|struct)\s+([A-Za-z0-9_]+)\b')
+
+
+def use_spec(path, names):
+    """`//@usespec FILE :: n1 n2 ..`: the named spec-fn / type-alias / struct items of FILE (a template or prelude of
+    THIS harness), attributes included, copied verbatim.  `*` = all of them.  Proof fns are never copied."""
+    text = open(path).read()
+    mask = code_mask(text)
+    found, order = {}, []
+    for m in SPEC_ITEM_RX.finditer(text):
+        if not mask[m.start(2)]:
+            continue
+        mo = find_top(text, r'[{;]', m.end(), mask)
+        if not mo:
+            continue
+        end = mo.start() if text[mo.start()] == ';' else match_close(text, mo.start(), mask)
+        if m.group(3) not in found:
+            found[m.group(3)] = text[m.start():end + 1]
+            order.append(m.group(3))
+    want = order if names == ['*'] else names
+    missing = [n for n in want if n not in found]
+    if missing:
+        raise SystemExit('template error: usespec %s: no spec fn / type / struct named %s' % (path, ', '.join(missing)))
+    return '\n'.join(found[n] for n in want)
+
+
 def build_unit(template_path, repo, vac=False):
     tpl = open(template_path).read()
     vxdir = os.path.dirname(os.path.abspath(__file__))
     tpl = re.sub(r'(?m)^//@include\s+(\S+)\s*$', lambda m: open(os.path.join(vxdir, m.group(1))).read(), tpl)
+    tpl = re.sub(r'(?m)^[ \t]*//@usespec\s+(\S+)\s+::\s+(.*?)\s*$', lambda m: use_spec(os.path.join(vxdir, m.group(1)), m.group(2).split()), tpl)
     em = Emitter()
     report = dict(unit=None, props=[], functions=[], items=[], lemmas=[], template=os.path.basename(template_path))
     m = re.search(r'(?m)^//@unit\s+(\S+)\s+props:\s*(.*)$', tpl)
@@ -698,12 +806,13 @@ def build_unit(template_path, repo, vac=False):
     report['unit'] = unit
     report['props'] = m.group(2).split()
     pos = 0
-    rx = re.compile(r'/\*@(fn|item)\s+(.*?)@\*/', re.S)
+    rx = re.compile(r'/\*@(fnrange|fn|item)\s+(.*?)@\*/', re.S)
     pending_props = None
     for dm in rx.finditer(tpl):
         _emit_template_text(tpl[pos:dm.start()], em, report, unit)
-        if dm.group(1) == 'fn':
+        if dm.group(1) in ('fn', 'fnrange'):
             d = parse_fn_directive(dm.group(2))
+            d['range'] = dm.group(1) == 'fnrange'
             if d['props'] is None:
                 d['props'] = report['props']
             build_function(repo, d, unit, em, report, vac)
